@@ -24,15 +24,17 @@ Record coll := mkColl {
   idx : list index;                   (* CollectionStore.indexes, insertion order *)
   forced : bool;                      (* _is_force_created *)
   next_oid : Z;                       (* fresh ObjectId supply (the harness uses a counter) *)
-  now : Z                             (* the mocked clock, microseconds *)
+  now : Z;                            (* the mocked clock, microseconds *)
+  odocs : list value                  (* store keys of documents born from an upsert: those are
+                                         OrderedDicts, whose == is sensitive to key order *)
 }.
 
-Definition empty_coll : coll := mkColl [] [] false 1000 0.
+Definition empty_coll : coll := mkColl [] [] false 1000 0 [].
 
 Definition with_docs (c : coll) (d : list (value * value)) : coll :=
-  mkColl d (idx c) (forced c) (next_oid c) (now c).
+  mkColl d (idx c) (forced c) (next_oid c) (now c) (odocs c).
 Definition with_idx (c : coll) (i : list index) : coll :=
-  mkColl (docs c) i (forced c) (next_oid c) (now c).
+  mkColl (docs c) i (forced c) (next_oid c) (now c) (odocs c).
 
 (* ---------------------------------------------------------------- store primitives *)
 (* keys are compared like Python dict keys: hash-consistent == (1 == 1.0 == True;
@@ -171,8 +173,6 @@ Definition index_query (i : index) (new : value) : res value :=
                                     | None => VNull
                                     end)) (ikey i) in
   if negb (forallb (fun kd => path_modelled (split_dots (fst kd))) (ikey i)) then Err EUnmodelled
-  else if isparse i && existsb (fun p => match snd p with VArr _ | VDoc _ => true | _ => false end) kv
-  then Err EType                                    (* set(find_kwargs.values()): unhashable *)
   else Ok (VDoc kv).
 
 (* _ensure_uniques(new_data): new_data is already in the store *)
@@ -186,8 +186,7 @@ Fixpoint ensure_uniques_l (is : list index) (c : coll) (new : value) (touched : 
       let all_null := match q with
                       | VDoc kv => forallb (fun p => is_null (snd p)) kv
                       | _ => false end in
-      (* set(values) == {None}: an index without keys gives set() != {None} *)
-      let skip := isparse i && all_null && match ikey i with [] => false | _ => true end in
+      let skip := isparse i && all_null in
       if skip then ensure_uniques_l is' c new touched else
       let q' := match ipartial i with
                 | Some p => VDoc [("$and", VArr [p; q])]
@@ -213,7 +212,7 @@ Definition insert_doc (c : coll) (d : value) : coll * res value :=
       let '(c0, fs1, id) :=
         match assoc "_id" fs with
         | Some i => (c, fs, i)
-        | None => (mkColl (docs c) (idx c) (forced c) (next_oid c + 1) (now c),
+        | None => (mkColl (docs c) (idx c) (forced c) (next_oid c + 1) (now c) (odocs c),
                    fs ++ [("_id", VOid (next_oid c))], VOid (next_oid c))
         end in
       if negb (id_modelled id) then
@@ -374,6 +373,7 @@ Fixpoint update_loop (c : coll) (spec update : value) (multi : bool) (todo : lis
               let id_of (x : value) := match x with VDoc fs => assoc "_id" fs | _ => None end in
               let changed := negb (py_eq d' d) in
               if negb changed then
+                if negb (value_eqb d' d) && py_in k (odocs c) then (c, Err EUnmodelled) else
                 if multi then update_loop c spec update multi todo' (matched + 1) modified
                 else (c, Ok (matched + 1, modified))
               else
@@ -436,7 +436,7 @@ Definition update (pre5 : bool) (c : coll) (spec0 update0 : value) (multi upsert
                     (c2, Ok (update_result matched modified None))
                   else
                     (* the sentinel: build the seed and insert it *)
-                    let fresh := (mkColl (docs c2) (idx c2) (forced c2) (next_oid c2 + 1) (now c2),
+                    let fresh := (mkColl (docs c2) (idx c2) (forced c2) (next_oid c2 + 1) (now c2) (odocs c2),
                                   VOid (next_oid c2)) in
                     let non_null (o : option value) :=
                       match o with Some i => if is_null i then None else Some i | None => None end in
@@ -458,7 +458,10 @@ Definition update (pre5 : bool) (c : coll) (spec0 update0 : value) (multi upsert
                             let '(c4, ir) := insert_doc c3 d' in
                             match ir with
                             | Err e => (c4, Err e)
-                            | Ok new_id => (c4, Ok (update_result 1 0 (Some new_id)))
+                            | Ok new_id =>
+                                (mkColl (docs c4) (idx c4) (forced c4) (next_oid c4) (now c4)
+                                        (new_id :: odocs c4),
+                                 Ok (update_result 1 0 (Some new_id)))
                             end
                         end
                     end
@@ -577,6 +580,27 @@ Definition count_op (c : coll) (f : value) (skip : Z) (limit : option Z) : coll 
 (* Cursor.distinct(key): values of every candidate of every found document, arrays
    flattened one level, duplicates (Python ==/hash) removed; order is that of a Python set,
    so the outcome is tagged "$set" and compared as a multiset *)
+(* can the value be put in a Python set (dicts go through helpers.hashdict, whose key turns
+   list values into tuples of their -- then necessarily hashable -- elements) *)
+Definition hash_scalar (v : value) : bool :=
+  match v with VDoc _ | VArr _ => false | _ => true end.
+Fixpoint hashdict_ok (v : value) : bool :=
+  match v with
+  | VDoc fs => (fix go (fs : list (string * value)) :=
+                  match fs with
+                  | [] => true
+                  | (_, x) :: fs' =>
+                      match x with
+                      | VDoc _ => hashdict_ok x
+                      | VArr xs => forallb hash_scalar xs
+                      | _ => true
+                      end && go fs'
+                  end) fs
+  | _ => true
+  end.
+Definition hashable_top (v : value) : bool :=
+  match v with VArr _ => false | VDoc _ => hashdict_ok v | _ => true end.
+
 Definition dedup (l : list value) : list value :=
   fold_left (fun acc v => if py_in v acc then acc else acc ++ [v]) l [].
 
@@ -591,7 +615,8 @@ Definition distinct_op (c : coll) (key : string) (f : value) : coll * res value 
                                          | Some (VArr xs) => xs
                                          | Some v => [v]
                                          end) (candidates (split_dots key) d)) l in
-      if existsb is_arr vals then (c', Err EType)        (* unhashable list in a set *)
+      if existsb (fun v => negb (hashable_top v)) vals
+      then (c', Err EType)                               (* unhashable value in a set *)
       else (c', Ok (VDoc [("$set", VArr (dedup vals))]))
   end.
 
@@ -608,7 +633,8 @@ Fixpoint delete_go (c : coll) (l : list value) (multi : bool) (n : Z) : coll * r
               match store_get id (docs c) with
               | None => (c, Err EKey)
               | Some _ =>
-                  let c' := with_docs c (store_del id (docs c)) in
+                  let c' := mkColl (store_del id (docs c)) (idx c) (forced c) (next_oid c) (now c)
+                                   (List.filter (fun k => negb (py_eq k id)) (odocs c)) in
                   if multi then delete_go c' l' multi (n + 1) else (c', Ok (n + 1))
               end
           end
@@ -711,7 +737,7 @@ Definition drop_index (c : coll) (name : string) : coll * res value :=
 Definition drop_indexes (c : coll) : coll * res value := (with_idx c [], Ok VNull).
 
 Definition drop_coll (c : coll) : coll * res value :=
-  (mkColl [] [] false (next_oid c) (now c), Ok VNull).
+  (mkColl [] [] false (next_oid c) (now c) [], Ok VNull).
 
 Definition index_doc (i : index) : value :=
   VDoc ([("key", VArr (map (fun kd => VArr [VStr (fst kd); snd kd]) (ikey i)))]
@@ -763,7 +789,7 @@ Definition step (pre5 : bool) (c : coll) (o : op) : coll * res value :=
   | ODropIndexes => drop_indexes c
   | OIndexInfo => index_information c
   | ODrop => drop_coll c
-  | OSetClock t => (mkColl (docs c) (idx c) (forced c) (next_oid c) t, Ok VNull)
+  | OSetClock t => (mkColl (docs c) (idx c) (forced c) (next_oid c) t (odocs c), Ok VNull)
   end.
 
 (* run a history, collecting (outcome, store contents) after every step *)
